@@ -12,7 +12,8 @@ META = {
             "buffer); a message followed by its FCS-16 always checks good, proved over the table regenerated from the Go package "
             "(fcs_good; fcstab_is_crc16 shows all 256 entries are the bitwise CRC-16/X-25); SLIPMUX frames meeting the MuxWF guard "
             "come back with the same payload and frame type, singly, as a stream and over any chunking (mux_roundtrip, "
-            "mux_stream_roundtrip_chunked). The framing bytes, frame classes, frame filter and FCS table are regenerated from the "
+            "mux_stream_roundtrip_chunked); the wire format is self-delimiting (stuffed_no_end, stream_end_count: END occurs exactly "
+            "twice per packet) and a stream cut at any byte delivers exactly a prefix of the sent packets (stream_truncation_safe). The framing bytes, frame classes, frame filter and FCS table are regenerated from the "
             "compiled package on every run; the hand-written transcription of the writer/reader loops is tied to the Go code by a "
             "differential correspondence run through the real Writer/Reader/SlipMuxWriter/SlipMuxReader over a chunking io.Reader, "
             "and the property's own oracle (packets out == packets in, frame types equal) is evaluated on the real code's answers.",
